@@ -273,6 +273,53 @@ def bfs(model, events, max_depth, normalise=True, dedupe=True, max_states=None, 
                 per_level=per_level, capped=capped)
 
 
+def _run_hist(hist):
+    """Worker: replay one complete history, comparing EVERY step with its fresh-object expectation."""
+    import signal
+    model = _MODEL
+    signal.signal(signal.SIGALRM, _on_alarm)
+    signal.setitimer(signal.ITIMER_REAL, 30.0)
+    n = 0
+    try:
+        w = model.open()
+        for i, ev in enumerate(hist):
+            obs, exp = step(model, w, ev, _NORMALISE)
+            n += 1
+            if obs != exp:
+                return (list(hist[:i + 1]), n, (core._short(exp, 300), core._short(obs, 300)))
+    except _Hang:
+        return (list(hist), n, ('terminates', 'still running after 30 s'))
+    finally:
+        signal.setitimer(signal.ITIMER_REAL, 0)
+    return (list(hist), n, None)
+
+
+def run_histories(model, alphabet, histories, normalise=False, deadline=None):
+    """Replays every history of a finite family (each on a fresh world) in parallel.  `alphabet` = the events that occur (for the oracle's precomputation)."""
+    import time
+    global _MODEL, _NORMALISE, _EVENTS
+    _MODEL, _NORMALISE, _EVENTS = model, normalise, alphabet
+    if hasattr(model, 'precompute'):
+        model.precompute(alphabet)
+    ctx = mp.get_context('fork')
+    transitions = 0
+    done = 0
+    violations = []
+    capped = None
+    with ctx.Pool(core.NPROC) as pool:
+        for hist, n, viol in pool.imap_unordered(_run_hist, histories, chunksize=8):
+            transitions += n
+            done += 1
+            if viol and len(violations) < 40:
+                violations.append((hist, viol))
+            if deadline and time.time() > deadline:
+                capped = 'time cap after %d of %d histories' % (done, len(histories))
+                pool.terminate()
+                break
+    return dict(states=done, transitions=transitions, depth_completed=max((len(h) for h in histories), default=0) if not capped else 0, saturated=False, violations=violations,
+                per_level=[{'histories': len(histories), 'replayed': done}], capped=capped)
+
+
 def minimise_history(model, hist, normalise):
     """Drop events one at a time while the last step still violates."""
     def bad(h):
